@@ -89,13 +89,21 @@ impl<'a, T> Iterator for KSelectionIterator<'a, T> {
     }
 }
 
+/// Binomial coefficient "n choose k". If the result does not fit into `usize`, `usize::MAX` is returned.
 pub fn binom(n: usize, k: usize) -> usize {
     if k > n {
         return 0;
     }
+    // (n choose k) = (n choose n-k). With the smaller one of both, all intermediate values are at most the result.
+    let k = k.min(n - k);
     let mut res = 1usize;
     for i in 0..k {
-        res = res * (n - i) / (i + 1);
+        // The product is divisible by (i + 1), but may exceed the range of usize even if the quotient does not.
+        let next = res as u128 * (n - i) as u128 / (i as u128 + 1);
+        if next > usize::MAX as u128 {
+            return usize::MAX;
+        }
+        res = next as usize;
     }
 
     res
